@@ -273,7 +273,7 @@ func isRace(id string) bool { return id == "C13" }
 
 // usesDialSeam: checks whose scenarios include go-mail's default dialers (net.Dialer / tls.Dialer
 // rewritten to the simulated network in a scratch copy, see instrument).
-func usesDialSeam(id string) bool { return id == "C07" || id == "C17" || id == "C19" }
+func usesDialSeam(id string) bool { return id == "C07" || id == "C14" || id == "C17" || id == "C19" }
 
 func checkCmd(id, tier string, seed uint64) int {
 	start := time.Now()
